@@ -85,6 +85,7 @@ FAMILIES = {
     "dispatch": {"module": "Dispatch", "judge": "DispatchTrace"},
     "pipeline": {"module": "MC_PipelineHist", "judge": "PipelineTrace", "by_history": True},
     "genfile": {"module": "GenFile", "judge": "GenFileTrace"},
+    "partial": {"module": "MC_PartialStruct", "judge": "PartialStructTrace"},
     "deepcopy": {"module": "DeepCopy", "judge": "DeepCopyTrace"},
     "runtimedoc": {"module": "MC_RuntimeDoc", "judge": "RuntimeDocTrace"},
     "valuelit": {"module": "ValueLit", "judge": "ValueLitTrace"},
@@ -165,6 +166,29 @@ def check_C17(ctx):
     return vlib.finish(ctx, "exploration", cov, [
         "the compiler and a reflective probe program are the oracle; containers are followed through by-value struct nesting only (interfaces and pointers are outside the no-sharing clause)",
         "when first-run and later-run output differ, compilation and behaviour are judged on the first run's output",
+    ], fails)
+
+
+def check_C18(ctx):
+    t = ctx.tier
+    res = run_family(ctx, "partial", "MC_PartialStruct", ["PartialStruct_gen_%s.cfg" % t], "PartialStructTrace", shard=4000, exec_timeout=7200)
+    fails = vlib.collect_failures(res["trace"], res["bad"], "partial", only_prefix="C18")
+    tr = res["trace"]
+    cov = {
+        "traces_validated_against_impl": len(tr),
+        "evaluations": len(tr),
+        "distinct_nontrivial": _distinct(tr, lambda r: len(r["case"]["omit"]) > 0 or r["case"]["replace"] != "none" or r["case"]["errshape"] != "none", key=lambda r: json.dumps(r["case"], sort_keys=True)),
+        "rule": "PartialStruct.tla enumerates origin structs as ordered selections of up to the tier bound of 9 field kinds (scalar, slice, map, pointer, time.Time, a type of another local "
+                "package, error, interface, nested struct) x 4 rotations of tag classes (none, json, tags containing dots, arbitrary text with quotes / %v / @name) x omit sets {none, first, last, "
+                "all} x replace {none, type only, type and tag} + three error shapes (not a struct, a struct not defined from a named type, origin not a struct), and defines Retained(origin, "
+                "omit, replace). The real partialstruct generator runs through gengo, the module is compiled, and a reflective probe reports the generated struct's fields (reflect.Type and tag "
+                "identity with the origin / the replacement), DeepCopyAs on nil, equality of retained and zero-ness of omitted fields. Non-trivial = cases with omit, replace or an error shape.",
+        "exhaustive": True,
+        "probed": sum(1 for r in tr if r["obs"]["ran"]),
+        "samples": [{"case": r["case"], "generated": r["conc"].get("generated", "")[:400]} for r in tr[:: max(1, len(tr) // 3)][:3]],
+    }
+    return vlib.finish(ctx, "exploration", cov, [
+        "compiler and reflective probe are the oracle; identical types = equal reflect.Type; a replaced field's type is another generated partial struct (the only kind of replacement whose copy code can compile)",
     ], fails)
 
 
@@ -651,6 +675,7 @@ CHECKS = {
     "C15": check_C15,
     "C16": check_C16,
     "C17": check_C17,
+    "C18": check_C18,
     "C19": check_C19,
     "C20": check_C20,
 }
